@@ -677,7 +677,7 @@ Fixpoint sweep (n : nat) (s : sked) : sked :=
     | [] => s
     | (t, _, _) :: rest =>
         let '(w', _) := o_send top t CAbort (sw s) in
-        sweep n' {| sw := w'; ready := rest; aborted := aborted s; runlog := runlog s |}
+        sweep n' {| sw := w'; ready := rest; aborted := aborted s; runlog := runlog s ++ [(tk (sw s), t)] |}
     end end
   end.
 
